@@ -11,6 +11,26 @@ pub mod verif_rt;
 #[cfg(feature = "sched")]
 use props::{Ctx, Tier};
 
+/// `loomck` backend: the acknowledgement micro-harness under loom's C11 memory model.
+#[cfg(feature = "loomck")]
+fn main() {
+    let res = harness::loom_c12::run_all();
+    let mut bad = 0;
+    let mut total = 0;
+    for (name, n, v) in &res {
+        total += n;
+        match v {
+            None => println!("{} executions={} ok", name, n),
+            Some(m) => {
+                bad += 1;
+                println!("{} executions={} VIOLATED: {}", name, n, m);
+            }
+        }
+    }
+    println!("loom: scenarios={} executions={} violations={}", res.len(), total, bad);
+    std::process::exit(if bad == 0 { 0 } else { 1 });
+}
+
 /// `native` backend: replay conformance traces written by the `sched` backend on the real crates.
 #[cfg(feature = "native")]
 fn main() {
